@@ -319,7 +319,14 @@ func c34() {
 		}
 
 		// (c) every byte index of each direction: flips and truncation.
-		xors := []byte{0x01, 0x02, 0x04, 0x08, 0x10, 0x20, 0x40, 0x80}
+		xors := []byte{0x01, 0x02, 0x04, 0x08, 0x10, 0x20, 0x40, 0x80, 0xff}
+		for xr := r.Rand("xor-" + which); len(xors) < 16; {
+			// quick: the eight single-bit flips, the complement and seven seeded values
+			x := byte(1 + xr.Intn(255))
+			if !bytes.Contains(xors, []byte{x}) {
+				xors = append(xors, x)
+			}
+		}
 		if !r.Quick() {
 			xors = xors[:0]
 			for x := 1; x <= 255; x++ {
@@ -488,7 +495,7 @@ func c34() {
 	r.Note("expected_client_to_server", hexs(expectedStream("both", specClientMagic)))
 	r.Assume("a half that returns (nil or error) closes its stream, as pkg/agent/dial.go and the agent process do; a cut direction delivers EOF to the receiver while the sender's writes are swallowed")
 	r.Assume("oracle as in DESIGN §5 C34: the half that consumed damaged bytes must fail; a half that consumed exactly the expected bytes may return nil even if the other half fails")
-	r.Finish("real client and server halves (magic only, version only, magic then version) through a journaling relay: clean runs; every byte index of both directions with 8 (quick) / all 255 (thorough) xor values and truncation at every index; scripted peers of 12 different versions and 4 wrong magic numbers in either role; distinct = (handshake, direction, damage kind, byte index, xor) and (variant, role)", 50)
+	r.Finish("real client and server halves (magic only, version only, magic then version) through a journaling relay: clean runs; every byte index of both directions with 16 (quick: single-bit flips, complement, seeded values) / all 255 (thorough) xor values and truncation at every index; scripted peers of 12 different versions and 4 wrong magic numbers in either role; distinct = (handshake, direction, damage kind, byte index, xor) and (variant, role)", 50)
 }
 
 // fieldOf names the protocol field a byte index of one direction belongs to.
